@@ -259,3 +259,129 @@ pub fn early(t: &mut Toks) -> String {
     rt.shutdown_background();
     out
 }
+
+/// raw lines of a subscription stream until stop (status, lines)
+async fn stream_raw(addr: std::net::SocketAddr, body: &str, stop: tokio::sync::watch::Receiver<bool>) -> (u16, Vec<String>, bool) {
+    let mut s = tokio::net::TcpStream::connect(addr).await.unwrap();
+    let req = format!("POST /v1/subscriptions HTTP/1.1\r\nHost: verif\r\nAccept: application/json\r\nContent-Type: application/json\r\nContent-Length: {}\r\n\r\n{}", body.len(), body);
+    s.write_all(req.as_bytes()).await.unwrap();
+    let mut buf: Vec<u8> = vec![];
+    let mut stop = stop;
+    let mut closed = false;
+    loop {
+        let mut chunk = [0u8; 8192];
+        tokio::select! {
+            r = s.read(&mut chunk) => match r {
+                Ok(0) | Err(_) => { closed = true; break; }
+                Ok(n) => { count_marks(&chunk[..n]); buf.extend_from_slice(&chunk[..n]) }
+            },
+            _ = stop.changed() => {
+                loop {
+                    match tokio::time::timeout(Duration::from_millis(300), s.read(&mut chunk)).await {
+                        Ok(Ok(n)) if n > 0 => buf.extend_from_slice(&chunk[..n]),
+                        _ => break,
+                    }
+                }
+                break;
+            }
+        }
+    }
+    let txt = String::from_utf8_lossy(&buf).to_string();
+    let status = txt.split_whitespace().nth(1).and_then(|x| x.parse::<u16>().ok()).unwrap_or(0);
+    let closed = closed || txt.contains("\r\n0\r\n");
+    (status, txt.lines().map(|l| l.trim().to_string()).filter(|l| l.starts_with('{')).collect(), closed)
+}
+
+/// case: commitwin <nrows> <commit_delay_ms> <attach_after_ms>
+///   the table holds nrows rows and a subscription exists (its creator keeps listening); one
+///   transaction rewrites every row; the matcher announces the batch's changes and -- schedule
+///   knob -- commits them commit_delay_ms later; attach_after_ms after the transaction was
+///   acknowledged a second subscriber attaches from scratch (inside that window when
+///   attach_after_ms < commit_delay_ms).  What the second subscriber was told -- its snapshot
+///   rows, then the change events after its end-of-query id -- is replayed into a view.
+/// obs: status=<http> snap=<rows in the snapshot> eoq=<id> changes=<events after it> consecutive=<0/1>
+///      stale=<rows of the view whose text differs from the table's at the end> missing=<rows absent>
+pub fn commitwin(t: &mut Toks) -> String {
+    let rt = tokio::runtime::Builder::new_multi_thread().worker_threads(6).enable_all().build().unwrap();
+    let nrows = t.u64();
+    let delay = t.u64();
+    let after = t.u64();
+    vh::MANUAL.store(false, SeqCst);
+    ph::BCAST_DELAY_MS.store(0, SeqCst);
+    vh::COMMIT_DELAY_MS.store(0, SeqCst);
+    EOQ_SEEN.store(0, SeqCst);
+    CHG_SEEN.store(0, SeqCst);
+    let out = rt.block_on(async move {
+        let srv = c17::start(None).await;
+        let addr = srv.addr;
+        let fill = format!(r#"["WITH RECURSIVE c(x) AS (SELECT 1 UNION ALL SELECT x + 1 FROM c WHERE x < {nrows}) INSERT INTO tests (id, text) SELECT x, 'old' || x FROM c"]"#);
+        let _ = c17::http(addr, "POST", "/v1/transactions", &[], &fill).await;
+        let (stop_tx, stop_rx) = tokio::sync::watch::channel(false);
+        let body = serde_json::to_string(SQL).unwrap();
+        let first = tokio::spawn({ let b = body.clone(); let rx = stop_rx.clone(); async move { stream_raw(addr, &b, rx).await } });
+        wait_seen(&EOQ_SEEN, 1, 60_000).await;
+        tokio::time::sleep(Duration::from_millis(300)).await;
+        vh::COMMIT_DELAY_MS.store(delay, SeqCst);
+        let _ = c17::http(addr, "POST", "/v1/transactions", &[], r#"["UPDATE tests SET text = 'new' || id"]"#).await;
+        // the matcher picks the batch up on its 600 ms timer (or earlier): attach relative to the
+        // first change event the creator receives
+        wait_seen(&CHG_SEEN, 1, 30_000).await;
+        tokio::time::sleep(Duration::from_millis(after)).await;
+        let second = tokio::spawn({ let b = body.clone(); let rx = stop_rx.clone(); async move { stream_raw(addr, &b, rx).await } });
+        // the creator sees nrows changes, the second subscriber whatever it is told; then one more
+        // transaction so that both streams are known to be past the batch
+        wait_seen(&CHG_SEEN, nrows as usize, 60_000).await;
+        tokio::time::sleep(Duration::from_millis(delay + 500)).await;
+        vh::COMMIT_DELAY_MS.store(0, SeqCst);
+        let _ = c17::http(addr, "POST", "/v1/transactions", &[], &format!(r#"["INSERT INTO tests (id, text) VALUES ({}, 'tail')"]"#, nrows + 1)).await;
+        tokio::time::sleep(Duration::from_millis(2500)).await;
+        let _ = stop_tx.send(true);
+        let _ = first.await;
+        let (status, lines, closed) = second.await.unwrap();
+        let errs = lines.iter().filter(|l| l.starts_with("{\"error\"")).count();
+        // replay
+        let mut view: std::collections::BTreeMap<i64, String> = Default::default();   // id -> text
+        let mut by_rowid: std::collections::BTreeMap<i64, i64> = Default::default();   // rowid -> id
+        let mut snap = 0;
+        let mut eoq: Option<i64> = None;
+        let mut ids: Vec<i64> = vec![];
+        for l in &lines {
+            let v: serde_json::Value = match serde_json::from_str(l) { Ok(v) => v, Err(_) => continue };
+            if let Some(r) = v.get("row") {
+                let rowid = r[0].as_i64().unwrap_or(-1);
+                let id = r[1][0].as_i64().unwrap_or(-1);
+                view.insert(id, r[1][1].as_str().unwrap_or("?").to_string());
+                by_rowid.insert(rowid, id);
+                snap += 1;
+            } else if let Some(e) = v.get("eoq") {
+                eoq = e.get("change_id").and_then(|x| x.as_i64());
+            } else if let Some(c) = v.get("change") {
+                let kind = c[0].as_str().unwrap_or("?");
+                let rowid = c[1].as_i64().unwrap_or(-1);
+                let id = c[2][0].as_i64().unwrap_or(-1);
+                ids.push(c[3].as_i64().unwrap_or(-1));
+                match kind {
+                    "delete" => { view.remove(&id); by_rowid.remove(&rowid); }
+                    _ => { view.insert(id, c[2][1].as_str().unwrap_or("?").to_string()); by_rowid.insert(rowid, id); }
+                }
+            }
+        }
+        let mut consecutive = true;
+        let mut prev = eoq.unwrap_or(0);
+        for i in &ids { if *i != prev + 1 { consecutive = false; } prev = *i; }
+        // the table at the end
+        let conn = srv.kit_agent.pool().read().await.unwrap();
+        let actual: Vec<(i64, String)> = conn.prepare("SELECT id, text FROM tests ORDER BY id").unwrap()
+            .query_map([], |r| Ok((r.get(0)?, r.get(1)?))).unwrap().map(|x| x.unwrap()).collect();
+        let mut stale = 0;
+        let mut missing = 0;
+        for (id, text) in &actual {
+            match view.get(id) { None => missing += 1, Some(t) if t != text => stale += 1, _ => {} }
+        }
+        let extra = view.len() as i64 - (actual.len() as i64 - missing as i64);
+        format!("status={status} snap={snap} eoq={} changes={} consecutive={} stale={stale} missing={missing} extra={extra} err={errs} closed={}", eoq.map(|x| x.to_string()).unwrap_or("-".into()), ids.len(), if consecutive { 1 } else { 0 }, if closed { 1 } else { 0 })
+    });
+    vh::COMMIT_DELAY_MS.store(0, SeqCst);
+    rt.shutdown_background();
+    out
+}
